@@ -113,6 +113,15 @@ def run(ctx):
                 if isinstance(k, np.ndarray) and k.dtype == bool and not k.any():
                     k[0] = True
                 s[k]
+            # selections of zero rows keep the columns, units and metadata (judged by the same contract)
+            keys_empty = [np.zeros(N, dtype=bool), slice(0, 0), np.array([], dtype=int)]
+            for k in keys_empty:
+                emp = s[k]
+                extra += 1
+                if len(emp) != 0 or list(emp.par_names) != list(s.par_names):
+                    ctx.violation("getitem-rows", "an empty selection %r returned %d rows with columns %r (table has %r)"
+                                  % (k, len(emp), list(emp.par_names), list(s.par_names)), desc)
+                    break
             # a slice of a slice, and a row of a slice
             if N >= 3:
                 part = s[1:]
